@@ -109,7 +109,11 @@ class IncludeExcludeTree():
                     continue
                 elif key in self.subtrees:
                     if isinstance(value, dict):
-                        result[key] = self.subtrees[key].get(value)
+                        selected = self.subtrees[key].get(value)
+                        # a key that is not selected itself is kept
+                        # only as a path to selected subkeys
+                        if self.subtrees[key].include or selected:
+                            result[key] = selected
                     elif self.subtrees[key].include:
                         # the key itself is selected,
                         # only some of its subkeys are not
@@ -124,7 +128,11 @@ class IncludeExcludeTree():
                     result[key] = value
                 elif key in self.subtrees:
                     if isinstance(value, dict):
-                        result[key] = self.subtrees[key].get(value)
+                        selected = self.subtrees[key].get(value)
+                        # a key that is not selected itself is kept
+                        # only as a path to selected subkeys
+                        if self.subtrees[key].include or selected:
+                            result[key] = selected
                     elif self.subtrees[key].include:
                         # the key itself is selected,
                         # only some of its subkeys are not
